@@ -141,6 +141,11 @@ func genC04(rng *rand.Rand, n int) SrvCase {
 }
 
 func checkC04(r *Result, rng *rand.Rand, thorough bool) {
+	traces, doneTraces := collectTraces(200)
+	defer func() {
+		doneTraces()
+		compareSrv(r, "srv", *traces)
+	}()
 	ncases, n := 400, 40
 	if thorough {
 		ncases, n = 3000, 80
